@@ -15,7 +15,16 @@ class NotImplementedOperatorDispatcher:
     def _not_impl(self, *_):
         return NotImplemented
 
-    add = sub = mul = truediv = floordiv = neg = and_ = or_ = xor = not_ = _not_impl
+    def _not_impl_unary(self, *_):
+        # Python only turns ``NotImplemented`` into a TypeError for binary operators;
+        # a unary operator returning it would evaluate to the ``NotImplemented`` object.
+        raise TypeError(
+            "bad operand type for unary operator: 'Var' "
+            "(operator overloading on Var is only enabled within spox._future.operator_overloading)"
+        )
+
+    add = sub = mul = truediv = floordiv = and_ = or_ = xor = _not_impl
+    neg = not_ = _not_impl_unary
 
 
 class Var:
